@@ -372,6 +372,180 @@ def _driver(mode):
     json.dump(out, sys.stdout)
 
 
+
+# ----------------------------------------------------------------------------- Python container layer (coq/C14/PyLayer.v)
+def gen_pykey(rng, n):
+    u = rng.random()
+    if u < 0.5:
+        return ["int", rng.randint(-n - 2, n + 2)]
+    if u < 0.75:
+        return ["hash", rng.choice(INTS + [py_murmur(rng.choice(NAMES).encode())])]
+    return ["str", rng.choice(NAMES)]
+
+
+def gen_pyseq(rng, length):
+    ops = []; n = 0; pid = 1
+    while len(ops) < length:
+        u = rng.random()
+        if u < 0.28 or n == 0 and u < 0.6:
+            ops.append(["add", gen_hash(rng), pid]); pid += 1; n += 1
+        elif u < 0.42:
+            ops.append(["get", gen_pykey(rng, n)])
+        elif u < 0.54:
+            ops.append(["set", gen_pykey(rng, n), gen_hash(rng), pid]); pid += 1
+        elif u < 0.60:
+            ops.append(["delitem", gen_pykey(rng, n)])
+        elif u < 0.74:
+            f = lambda: None if rng.random() < 0.3 else rng.randint(-n - 3, n + 3)
+            ops.append(["slice", f(), f(), rng.choice([1, 1, 2, 3, -1, -1, -2, -3, 7, -7])])
+        elif u < 0.78:
+            ops.append(["len"])
+        elif u < 0.97:
+            v = rng.random()
+            idx = None if v < 0.4 else (rng.randrange(n) if n and rng.random() < 0.75 else rng.choice([n, -1, n + 2]))
+            hk = None if 0.3 < v < 0.9 else (["int", rng.choice(INTS)] if rng.random() < 0.4 else gen_pykey(rng, 0) if False else rng.choice([["hash", rng.choice(INTS)], ["str", rng.choice(NAMES)]]))
+            ops.append(["remove", idx, hk, 1 if rng.random() < 0.5 else 0])
+            n = max(0, n - 1)
+        else:
+            ops.append(["delall"]); n = 0
+    return {"pyops": ops}
+
+
+def _pylayer_driver():
+    import warnings
+    warnings.simplefilter("ignore")
+    import rebound
+    from rebound import clibrebound as clib
+    want = os.environ.get("C14_LIBDIR")
+    if want and not os.path.realpath(clib._name).startswith(os.path.realpath(want) + os.sep):
+        sys.exit(97)
+    Particle = rebound.Particle
+    seqs = json.load(sys.stdin)
+    out = []
+
+    def key(k):
+        return k[1] if k[0] in ("int", "str") else ctypes.c_uint32(k[1])
+    for sq in seqs:
+        sim = rebound.Simulation()
+        rows = []
+        for op in sq["pyops"]:
+            t = op[0]; code = 9; pay = []
+            try:
+                if t == "add":
+                    sim.add(m=float(op[2]), x=float(op[2]) * 1e-4, hash=op[1][1])
+                elif t == "get":
+                    code, pay = 3, [sim.particles[key(op[1])].index]
+                elif t == "set":
+                    sim.particles[key(op[1])] = Particle(m=float(op[3]), x=float(op[3]) * 1e-4, hash=op[2][1])
+                elif t == "delitem":
+                    del sim.particles[key(op[1])]
+                elif t == "slice":
+                    code, pay = 4, [p.index for p in sim.particles[op[1]:op[2]:op[3]]]
+                elif t == "len":
+                    code, pay = 5, [len(sim.particles)]
+                elif t == "remove":
+                    kw = {"keep_sorted": bool(op[3])}
+                    if op[1] is not None: kw["index"] = op[1]
+                    if op[2] is not None: kw["hash"] = key(op[2])
+                    sim.remove(**kw)
+                elif t == "delall":
+                    del sim.particles
+            except AttributeError:
+                code = 6
+            except rebound.ParticleNotFound:
+                code = 2
+            except RuntimeError:
+                code = 0
+                for _ in range(12):       # a second queued error message must not surface in a later call
+                    try:
+                        sim.process_messages(); break
+                    except RuntimeError:
+                        pass
+            except Exception as e:
+                code = 7; pay = [0]
+            rows.append([code, pay, sim.N, sim.N_active])
+        fin = []
+        for i in range(sim.N):
+            q = sim.particles[i]
+            ok = q.m == int(q.m) and q.x == q.m * 1e-4
+            fin.append([q.hash.value, int(q.m) if ok else -1, bool(q.y != q.y)])
+        out.append({"rows": rows, "final": fin})
+    json.dump(out, sys.stdout)
+
+
+def coq_pykey(k):
+    if k[0] == "int":
+        return "(KInt (%d)%%Z)" % k[1]
+    if k[0] == "hash":
+        return "(KHash %d)" % k[1]
+    return "(KStr [%s])" % "; ".join(str(b) for b in k[1].encode("ascii"))
+
+
+def coq_pyop(op):
+    t = op[0]
+    oz = lambda v: "None" if v is None else "(Some (%d)%%Z)" % v
+    if t == "add":
+        return "PyAdd (mkP %s %d false)" % (coq_hash(op[1]), op[2])
+    if t == "get":
+        return "PyGet %s" % coq_pykey(op[1])
+    if t == "set":
+        return "PySet %s (mkP %s %d false)" % (coq_pykey(op[1]), coq_hash(op[2]), op[3])
+    if t == "delitem":
+        return "PyDelItem %s" % coq_pykey(op[1])
+    if t == "slice":
+        return "PySlice %s %s (%d)%%Z" % (oz(op[1]), oz(op[2]), op[3])
+    if t == "len":
+        return "PyLen"
+    if t == "remove":
+        return "PyRemove %s %s %s" % (oz(op[1]), "None" if op[2] is None else "(Some %s)" % coq_pykey(op[2]), "true" if op[3] else "false")
+    if t == "delall":
+        return "PyDelAll"
+    raise ValueError(op)
+
+
+def pylayer_check(ctx, libdir):
+    rng = ctx.rng
+    seqs = [gen_pyseq(rng, rng.choice([20, 40, 80])) for _ in range(ctx.scale(60, 600))]
+    for attempt in range(3):
+        env = vlib.pyenv(libdir); env["C14_LIBDIR"] = libdir
+        r = subprocess.run([vlib.PY, os.path.abspath(__file__), "--drive-pylayer"], env=env, input=json.dumps(seqs),
+                           capture_output=True, text=True, timeout=900)
+        if r.returncode != 97:
+            break
+        libdir = build_default(ctx)
+    if r.returncode != 0:
+        ctx.obligation("correspondence:C14 Python container layer", False, "driver exit %d: %s" % (r.returncode, r.stderr[-1500:]))
+        return
+    res = json.loads(r.stdout)
+    texts = []
+    for sq, rs in zip(seqs, res):
+        rows = "; ".join("(%d, [%s], %d, %d)%%Z" % (c, "; ".join(str(x) for x in pay), n, na) for c, pay, n, na in rs["rows"])
+        fin = "; ".join("(%d%%N, %d%%N, %s)" % (p[0], p[1] if p[1] >= 0 else 4294967295999, "true" if p[2] else "false") for p in rs["final"])
+        texts.append("([%s], [%s], [%s])" % ("; ".join(coq_pyop(o) for o in sq["pyops"]), rows, fin))
+        ctx.evaluations += len(rs["rows"])
+    hdr = ("From Coq Require Import List ZArith NArith Bool.\nFrom RV Require Import C14.Murmur C14.Model C14.PyLayer.\n"
+           "Import ListNotations.\nOpen Scope N_scope.\n")
+    jobs = []
+    chunk = 15
+    for c0 in range(0, len(texts), chunk):
+        jobs.append(("c14_py%d" % (c0 // chunk), hdr + "Definition cases : list pycase := [\n" + ";\n".join(texts[c0:c0 + chunk]) +
+                     "].\nEval vm_compute in (bad_py 0 cases).\n"))
+    bad = []; ok_all = True; detail = ""
+    for (name, ok, out), c0 in zip(vlib.coq_eval_many(jobs), range(0, len(texts), chunk)):
+        b = vlib.parse_coq_list_nat(out) if ok else None
+        if b is None:
+            ok_all = False; detail = out[-1200:]
+        else:
+            bad += [c0 + x for x in b]
+    if bad:
+        detail = "first mismatching sequence: %s ; library rows: %s" % (json.dumps(seqs[bad[0]]["pyops"])[:900], json.dumps(res[bad[0]]["rows"])[:900])
+    ctx.obligation("correspondence:C14 Python container layer (int/negative/str/c_uint32 keys, slices, __setitem__, del item, remove(index,hash), del all) "
+                   "== PyLayer.v on %d sequences" % len(seqs), ok_all and not bad, detail)
+
+if __name__ == "__main__" and len(sys.argv) >= 2 and sys.argv[1] == "--drive-pylayer":
+    _pylayer_driver()
+    sys.exit(0)
+
 if __name__ == "__main__" and len(sys.argv) >= 3 and sys.argv[1] == "--drive":
     sys.path.insert(0, os.path.dirname(os.path.abspath(__file__)))
     _driver(sys.argv[2])
@@ -393,8 +567,12 @@ def drive(libdir, mode, seqs, env_extra=None, timeout=600):
         r = subprocess.run([vlib.PY, os.path.abspath(__file__), "--drive", mode], env=env, input=json.dumps(seqs),
                            capture_output=True, text=True, timeout=timeout)
         if r.returncode == 97 and REBUILD.get(libdir):
-            # the cached build directory was evicted by a concurrently running check: build it again and retry
-            REBUILD[libdir]()
+            # the cached build directory was evicted / the tree changed under a concurrently running check: build again, retry
+            nd = REBUILD[libdir]()
+            REBUILD[nd] = REBUILD[libdir]
+            env.update(vlib.pyenv(nd)); env["C14_LIBDIR"] = nd
+            if env_extra:
+                env.update(env_extra)
             continue
         break
     if r.returncode != 0:
@@ -509,7 +687,7 @@ def truncate_at(sq, k):
 def run(ctx):
     libdir = build_default(ctx)
     REBUILD[libdir] = lambda: build_default(ctx)
-    proved = ctx.prove("C14", extra_targets=["C14/Run.vo"])
+    proved = ctx.prove("C14", extra_targets=["C14/Run.vo", "C14/PyLayer.vo", "C14/Hybrid.vo"])
     rng = ctx.rng
     stable = qsort_is_stable()
     ctx.assumptions.append("platform qsort keeps equal hashes in index order (probed: %s); with an unstable qsort the exact "
@@ -668,6 +846,12 @@ def run(ctx):
         ctx.obligation("correspondence:C14 py_index == Particles.__getitem__(int) on %d keys" % len(pyi), b == [],
                        out[-800:] if b is None else "mismatch: %s" % [pyi[i] for i in (b or [])[:5]])
 
+    # ---------------- Python container layer
+    pylayer_check(ctx, build_default(ctx))
+
+    # ---------------- MERCURIUS bookkeeping scenarios (library only)
+    mercurius_scenarios(ctx, build_default(ctx))
+
     # ---------------- real variational particles: removal refused, simulation unchanged
     vres, vd = drive_variation(libdir)
     ctx.obligation("searcher:C14 removal with real variational particles (add_variation) is refused and changes nothing",
@@ -698,6 +882,63 @@ def run(ctx):
         "theorems are about the hand-written model coq/C14/Model.v, tied to the current particle.c by the per-operation correspondence (not by translation)",
     ]
 
+
+
+MERC_SCRIPT = r"""
+import warnings; warnings.simplefilter("ignore")
+import rebound, json, sys
+which = sys.argv[1]
+sim = rebound.Simulation()
+sim.integrator = "mercurius"; sim.dt = 0.01
+sim.add(m=1.); sim.add(m=1e-3, a=1.); sim.add(m=1e-3, a=2.)
+if which == "tree":
+    sim.configure_box(100.); sim.collision = "tree"
+    for p in sim.particles: p.r = 1e-4
+sim.step()
+rim = sim.ri_mercurius
+nd = rim._N_allocated_dcrit
+dc = lambda: [rim._dcrit[i] for i in range(nd)]
+if which == "tree":
+    before = dc(); ob = [(p.m, p.x) for p in sim.particles]
+    try:
+        sim.remove(1); failed = False
+    except RuntimeError:
+        failed = True
+    print(json.dumps({"failed": failed, "N": sim.N, "particles_same": ob == [(p.m, p.x) for p in sim.particles],
+                      "dcrit_before": before, "dcrit_after": dc(), "tree": bool(sim._tree_root)}))
+else:
+    sim.add(m=1e-3, a=3.); sim.add(m=1e-3, a=4.)
+    sim.remove(0)
+    print(json.dumps({"N": sim.N, "N_allocated_dcrit": nd}))
+"""
+
+
+def mercurius_scenarios(ctx, libdir):
+    d = os.path.join(vlib.BUILD, "cases"); os.makedirs(d, exist_ok=True)
+    f = os.path.join(d, "c14_merc.py"); open(f, "w").write(MERC_SCRIPT)
+    try:
+        r = vlib.run_py(libdir, f, ["tree"], timeout=120)
+    except subprocess.TimeoutExpired:
+        ctx.obligation("searcher:C14 MERCURIUS refused-removal scenario completes", False, "timeout"); return
+    if r.returncode != 0:
+        ctx.obligation("searcher:C14 MERCURIUS refused-removal scenario completes", False, (r.stderr or "")[-800:]); return
+    o = json.loads(r.stdout.strip().splitlines()[-1])
+    ctx.evaluations += 1
+    if o["failed"] and o["dcrit_before"] != o["dcrit_after"]:
+        ctx.violation("mercurius_refused_removal_shifts_dcrit", {"scenario": "mercurius; 3 bodies r=1e-4; configure_box(100); collision='tree'; step(); remove(1)", "observed": o},
+                      True, "a refused removal (tree present, keep_sorted forced by MERCURIUS) modified ri_mercurius.dcrit")
+    if ctx.thorough:
+        rt = subprocess.run(["clang", "-print-file-name=libclang_rt.asan-x86_64.so"], capture_output=True, text=True).stdout.strip()
+        try:
+            adir = ctx.lib("default", cc="clang", extra_flags=["-fsanitize=address,undefined", "-fno-omit-frame-pointer",
+                                                               "-fno-sanitize-recover=undefined", "-fno-sanitize=nonnull-attribute"], tag="asan")
+            env = vlib.pyenv(adir); env.update({"ASAN_OPTIONS": "detect_leaks=0:symbolize=0", "LD_PRELOAD": rt})
+            r = subprocess.run([vlib.PY, f, "grow"], env=env, capture_output=True, text=True, timeout=180, stdin=subprocess.DEVNULL)
+            if "AddressSanitizer" in (r.stderr or "") and "heap-buffer-overflow" in r.stderr:
+                ctx.violation("mercurius_dcrit_overflow", {"scenario": "mercurius; 3 bodies; step(); add 2 bodies; remove(0)", "report": r.stderr[:1500]},
+                              True, "the dcrit shift of reb_simulation_remove_particle reads past N_allocated_dcrit")
+        except Exception as e:
+            ctx.obligation("searcher:C14 MERCURIUS dcrit scenario under ASan completes", False, repr(e)[-500:])
 
 def drive_variation(libdir):
     script = r'''
@@ -732,7 +973,7 @@ def run_asan(ctx, seqs):
     except Exception as e:
         ctx.obligation("searcher:C14 ASan+UBSan build", False, str(e)[-800:]); return
     rt = subprocess.run(["clang", "-print-file-name=libclang_rt.asan-x86_64.so"], capture_output=True, text=True).stdout.strip()
-    env = {"ASAN_OPTIONS": "detect_leaks=0:abort_on_error=1:halt_on_error=1", "UBSAN_OPTIONS": "halt_on_error=1:print_stacktrace=1"}
+    env = {"ASAN_OPTIONS": "detect_leaks=0:abort_on_error=1:halt_on_error=1:symbolize=0", "UBSAN_OPTIONS": "halt_on_error=1:print_stacktrace=1"}
     if rt and os.path.exists(rt):
         env["LD_PRELOAD"] = rt
     bad = None
